@@ -11,7 +11,14 @@
      the main loop receives next, and [deliver j] is "the result of the j-th in-flight task is received next".
      [loop_body] is one iteration of `for r := range results {...}` with the same case split, the same variables
      (k1 k2 s1 s2 sigok taskCount) and the same direction test `r.signum == s2` as the Go code.
-   - [par_check]: executable driver over an explicit schedule, for the harness. *)
+   - [run] / [steps]: termination with an answer / reachability under arbitrary interleavings.
+   - [par_check]: executable driver over an explicit schedule, for the harness.
+
+   ASSUMPTION of the model: [verify] is a total function of (key, signature).  In Go a key is decoded by
+   bytesToPublicKey when its task is SENT (main goroutine), and that panics on a malformed encoding; which keys
+   are ever sent depends on the schedule (keys [A; BAD; B; C] with valid signatures [sA; sB; sC]: if the
+   forward result arrives first the loop sends key #1 and panics, if the backward result arrives first it returns
+   true without ever touching key #1).  Malformed key encodings are outside this model. *)
 From NG Require Import Common.Tactics.
 From Coq Require Import Sorted.
 
@@ -118,6 +125,20 @@ Definition deliver (keys : list K) (sigs : list Sg) (j : nat) (st : pstate) : op
       end
   end.
 
+(* All interleavings.  [run st b]: the main loop can terminate with answer b, i.e. SOME sequence of enabled
+   deliveries leads to `break loop` with sigok = b.  (A theorem "forall b, run st b -> ..." therefore speaks
+   about EVERY interleaving of the workers.) *)
+Inductive run (keys : list K) (sigs : list Sg) : pstate -> bool -> Prop :=
+| run_done st j b : deliver keys sigs j st = Some (Done b) -> run keys sigs st b
+| run_step st j st' b :
+    deliver keys sigs j st = Some (Running st') -> run keys sigs st' b -> run keys sigs st b.
+
+(* [steps c st st']: st' is reached from st by exactly c deliveries, the loop still running *)
+Inductive steps (keys : list K) (sigs : list Sg) : nat -> pstate -> pstate -> Prop :=
+| steps_0 st : steps keys sigs 0 st st
+| steps_S c st j st' st'' :
+    steps keys sigs c st st' -> deliver keys sigs j st' = Some (Running st'') -> steps keys sigs (S c) st st''.
+
 (* state after the two initial sends (len(sigs) >= 2) *)
 Definition init (keys : list K) (sigs : list Sg) : pstate :=
   mk_pstate 0 (length keys - 1) 0 (length sigs - 1) true 2 [(0, 0); (length keys - 1, length sigs - 1)].
@@ -178,6 +199,8 @@ Arguments index_matching {K Sg} verify keys sigs.
 Arguments seq_match {K Sg} verify keys sigs.
 Arguments worker {K Sg} verify keys sigs t.
 Arguments deliver {K Sg} verify keys sigs j st.
+Arguments run {K Sg} verify keys sigs _ _.
+Arguments steps {K Sg} verify keys sigs _ _ _.
 Arguments init {K Sg} keys sigs.
 Arguments run_sched {K Sg} verify keys sigs fuel sched st.
 Arguments one_sig {K Sg} verify keys s.
